@@ -21,6 +21,7 @@ var c13Entries = map[string]string{
 	"hdrpars":  "<sip:127.0.2.1:5070;lr>;hp=1;flag",
 	"userpct":  "<sip:u@127.0.2.2:5060;lr;x=%41>",
 	"lr-first": "<sip:127.0.2.1;lr;transport=UDP>",
+	"port0":    "<sip:127.0.2.1:05070;lr>",
 }
 
 func c13Cfgs(keep string) []RCfg {
@@ -44,6 +45,7 @@ func c13Msg(s *EnumSpec, v []int) *WMsg {
 	}
 	first := map[string]string{
 		"unresolvable-right-port": "<sip:edge-gw.invalid:" + lport + ";lr>",
+		"addr-port-leading-zero":  "<sip:127.0.0.1:0" + lport + ";lr>",
 		"none":                    "", "addr-port": "<sip:127.0.0.1:" + lport + ";lr>", "alias-port": "<sip:proxy.example.com:" + lport + ";lr>",
 		"alias-noport": "<sip:proxy.example.com;lr>", "addr-noport": "<sip:127.0.0.1;lr>", "wrong-port": "<sip:127.0.0.1:5099;lr>",
 		"foreign-host-right-port": "<sip:127.0.2.2:" + lport + ";lr>", "other-listener": "<sip:127.0.0.2:5060;lr>", "other-listener-alias": "<sip:proxy2.example.com:5060;lr>",
@@ -219,11 +221,11 @@ func c13AgedSpec() *AgedSpec {
 }
 
 func init() {
-	ent := []string{"absent", "bare", "display", "quoted", "uripars", "hdrpars", "userpct", "lr-first"}
+	ent := []string{"absent", "bare", "display", "quoted", "uripars", "hdrpars", "userpct", "lr-first", "port0"}
 	c13Spec = &EnumSpec{
 		Feats: []Feat{
 			{Name: "first", Vals: []string{"none", "addr-port", "alias-port", "alias-noport", "addr-noport", "wrong-port", "foreign-host-right-port", "other-listener", "other-service",
-				"own-display", "own-hdrpar", "own-user", "own-nolr", "other-listener-alias", "unresolvable-right-port"}},
+				"own-display", "own-hdrpar", "own-user", "own-nolr", "other-listener-alias", "unresolvable-right-port", "addr-port-leading-zero"}},
 			{Name: "e1", Vals: ent},
 			{Name: "e2", Vals: ent},
 			{Name: "e3", Vals: ent, Quick: 3},
@@ -272,7 +274,7 @@ func init() {
 		return true
 	}
 	addCheck(&Check{ID: "C13", Level: "exploration",
-		Rule:   "complete product: first Route entry (15 shapes: own by address/alias/with and without port, near misses, other listeners, decorated own entries, an unresolvable host with the listener's port) x remaining list of 0-3 (thorough 0-4) entries over a 7-entry alphabet (display names, URI parameters valued/valueless/lr in any position, header parameters, %-escapes) x every layout (all compositions into header lines, with/without blank after commas) x keep-next-hop x arrival {UDP, TCP, UDP on a listens entry without address}; the emitted Route list is decoded by the independent reader and compared component-wise with the reference; second pass: all cases of one (keep, first entry) class fed into ONE long-lived world; non-trivial = request carries a Route",
+		Rule:   "complete product: first Route entry (16 shapes incl. a port written with a leading zero: own by address/alias/with and without port, near misses, other listeners, decorated own entries, an unresolvable host with the listener's port) x remaining list of 0-3 (thorough 0-4) entries over an 8-entry alphabet (display names, URI parameters valued/valueless/lr in any position, header parameters, %-escapes) x every layout (all compositions into header lines, with/without blank after commas) x keep-next-hop x arrival {UDP, TCP, UDP on a listens entry without address}; the emitted Route list is decoded by the independent reader and compared component-wise with the reference; second pass: all cases of one (keep, first entry) class fed into ONE long-lived world; non-trivial = request carries a Route",
 		Assume: []string{"two services, four listeners (one bound to every local address), host table with aliases; only the first emission is compared (exactly-one is C03)"},
 		Run: func(c *Ctx) {
 			c13Spec.Run(c)
